@@ -160,3 +160,10 @@ CHECKS["C25"] = {
     "text": "135 one-kernel invokes (3 offsets x 5 grid-point types x {go_all_pts, go_internal_pts, go_external_pts, 6 user-defined spaces}) plus two-kernel families, x constant-loop-bounds on/off x 25 grids (internal region starting at 2, stops 1..5 incl. empty) x BFS over the ten GOcean transformations (quick depth 1 + leading GOConstLoopBoundsTrans: 8k states; thorough depth 2: 82k states). Each kernel must be called exactly once per point of its region, in invoke order per point, before and after every accepted history.",
     "note": "dl_esm_inf is not vendored: without constant loop bounds the expected region is the rectangle stored in the mock field, with them a frozen transcription of the built-in table; grids whose internal region does not start at 2 are outside the domain ({start} is documented as 2) and are not enumerated; go_offset_any vs field rectangle on mixed invokes is not judged. Fixed: go_every ignoring user-defined spaces, loop fusion across different index offsets, move-boundaries on a shared loop.",
 }
+
+CHECKS["C20"] = {
+    "level": "model_checking",
+    "technique": "exhaustive enumeration of all LFRic built-ins x configurations (distributed memory, annexed-DoF setting, OpenMP variants) x enumerated argument values: the real generated algorithm + PSy layers are compiled with gfortran against the bundled LFRic stub infrastructure and executed; every DoF and reduction result is compared exactly with a formula table transcribed from the user guide (cross-checked mechanically against the built-in metadata); loop DoF ranges are read from the generated text and compared with the documented range",
+    "text": "All 68 built-ins in BUILTIN_MAP, dm {F,T} x COMPUTE_ANNEXED_DOFS {F,T} x {no OpenMP, parallel-do, parallel+do, reprod reductions}, W0 and W3 fields, OMP_NUM_THREADS 1-3; values: all 36 pairs of {-2..3} per DoF plus a distinct non-integer pattern, real scalars {-2,0,3,0.5}, integer scalars {-2,0,3} (quick: 16k executed invokes, 1.28M DoF values compared, 1.1k loop bounds judged; thorough: 122k / 8.7M / 4.8k). Part B judges the loop upper bound (undf / last owned / last annexed / last halo(d) after redundant computation) against the documentation.",
+    "note": "The stub infrastructure has no real halos, so values are checked on all DoFs and DoF RANGES are decided structurally from the generated bounds (documented deviation from the ring-machine design). DoFs whose documented value is undefined (x/0, negative**real) are executed but not judged. Fixed: redundant computation accepted reduction loops.",
+}
